@@ -8,6 +8,9 @@ import FrappyProofs.Lemmas.DatatypesCanon
 import FrappyProofs.Lemmas.DatatypesCall
 import FrappyProofs.Lemmas.RatGrid
 import FrappyProofs.Lemmas.DatatypesReval
+import FrappyProofs.Lemmas.DatatypesOfType
+import FrappyProofs.Lemmas.DatatypesConvDenotes
+import FrappyModel.Datatypes.ErrText
 import FrappyModel.Generated.C01
 /-
 C01 — property theorems (nothing but property theorems and their non-vacuity examples).
@@ -345,6 +348,221 @@ theorem judgeChange_sound (dt : DType F) (j : JVal F) (held : Option (PVal F)) (
         exact ⟨v, (wireDenotesB_iff dt j v).1 hb.1, (denotesB_iff dt held v r).1 hb.2⟩
       · simp [hb] at h2
 
+/-! ## a value from a driver at the result position of a command (`Command.do`: `self.result(res)`)
+
+The result is converted by `__call__`: type-checked, numeric limits not applied (by design: a device reports what it
+reports).  What the statement still demands there: a value *of the type* (`OfType` = the declared value set, numeric
+limits aside) or a bad-value error, never anything else - in particular the driver's `None` is not a result. -/
+
+/-- the declared value set lies inside the type -/
+theorem inSet_ofType (dt : DType F) (hwf : dt.WF) (v : PVal F) (h : InSet dt v) : OfType dt v :=
+  inSetG_ofTypeG dt v hwf h
+
+/-- whatever `__call__` returns is a value of the type: right kinds at every position, grid values for scaled leaves,
+members of the enum, string / blob / array lengths within their limits, the arity of tuples, known member names and
+all mandatory members of structs -/
+theorem call_ofType_sound (dt : DType F) (hwf : dt.WF) (v r : PVal F) (h : call dt v = .ok r) : OfType dt r :=
+  call_ofType dt v none r hwf h
+
+/-- `None` is a value of no type -/
+theorem none_of_no_type (dt : DType F) : ¬ OfType dt (.none : PVal F) := by
+  cases dt <;> simp [OfType, OfTypeG]
+
+/-- a command with a declared result type whose function returns `None` answers with a bad-value error -/
+theorem command_none_refused (dt : DType F) : commandResult (some dt) (.none : PVal F) = .error .wrongType := by
+  cases dt <;> simp [commandResult, call, conv, doubleCall, intCall, scaledCall, boolCall, enumCall, stringCall, blobCall,
+    PVal.toFloat?, PVal.seqItems?, Except.map]
+
+/-- … and it denotes the value offered: numbers numerically equal (no fraction truncated, no string taken as a number),
+the nearest grid value for a scaled leaf, element-wise, key-wise -/
+theorem call_denotes (dt : DType F) (hwf : dt.WF) (v r : PVal F) (h : call dt v = .ok r) : ConvDenotes dt v r :=
+  call_convDenotes dt v none r hwf h
+
+/-- the conversion-only path as a whole: `dt(v)` answers with a value of the type that denotes `v`, or with a bad-value
+error - for every Python value `v` (a driver update, the result of a `read_*` method or of a command, a configured value) -/
+theorem call_ok (dt : DType F) (hwf : dt.WF) (v : PVal F) :
+    match call dt v with
+    | .ok r => ConvOK dt v (.ok r)
+    | .error .range => True
+    | .error .wrongType => True
+    | .error (.other _) => False := by
+  cases h : call dt v with
+  | ok r => exact ⟨call_ofType_sound dt hwf v r h, call_denotes dt hwf v r h⟩
+  | error e =>
+    cases e with
+    | range => trivial
+    | wrongType => trivial
+    | other c => exact call_total dt v c h
+
+/-- a parameter always holds a value of its type: the invariant survives every driver update (converted, or refused and
+the old value kept) and every `change` request (accepted into the value set, or refused) -/
+theorem held_ofType_step (dt : DType F) (hwf : dt.WF) (held : PVal F) (h : OfType dt held) (ev : ParamEvent F) :
+    OfType dt (holdStep dt held ev) := by
+  cases ev with
+  | update v =>
+    simp only [holdStep]
+    split
+    · rename_i r hr; exact call_ofType_sound dt hwf v r hr
+    · exact h
+  | change j =>
+    simp only [holdStep]
+    split
+    · rename_i r hr; exact inSet_ofType dt hwf r (change_sound dt hwf j held r hr)
+    · exact h
+
+theorem held_ofType (dt : DType F) (hwf : dt.WF) (held : PVal F) (h : OfType dt held) (evs : List (ParamEvent F)) :
+    OfType dt (holdRun dt held evs) := by
+  unfold holdRun
+  induction evs generalizing held with
+  | nil => exact h
+  | cons ev evs ih => exact ih (holdStep dt held ev) (held_ofType_step dt hwf held h ev)
+
+/-- the result clause for whatever the command function returned -/
+theorem command_result_ok (resT : Option (DType F)) (hwf : ∀ dt, resT = some dt → dt.WF) (v r : PVal F)
+    (h : commandResult resT v = .ok r) : ResultOK resT v (.ok r) := by
+  cases resT with
+  | none =>
+    simp only [commandResult] at h
+    injection h with h
+    subst h
+    simp [ResultOK, PVal.isNone]
+  | some dt => exact ⟨call_ofType_sound dt (hwf dt rfl) v r h, call_denotes dt (hwf dt rfl) v r h⟩
+
+/-- … and never any other kind of exception -/
+theorem command_result_total (resT : Option (DType F)) (v : PVal F) (c : String) :
+    commandResult resT v ≠ .error (.other c) := by
+  cases resT with
+  | none => simp [commandResult]
+  | some dt => exact call_total dt v c
+
+/-- converting the converted result again returns it unchanged (from the single carrier property `SnapIdem`) -/
+theorem command_result_idem_of_snapIdem (hsnap : SnapIdem F) (dt : DType F) (hwf : dt.WF) (v r : PVal F)
+    (h : commandResult (some dt) v = .ok r) : commandResult (some dt) r = .ok r :=
+  call_idem_of_snapIdem hsnap dt hwf v r h
+
+/-- the whole of `Command.do`, for EVERY command function (the driver): the function is called at most once, with the
+validated argument (or without one), and what is handed back to the dispatcher is what the function returned for that
+call, converted: a value of the declared result type denoting it (or `None` when no result type is declared) … -/
+theorem command_do_ok (argT resT : Option (DType F)) (hwf : ∀ dt, resT = some dt → dt.WF)
+    (func : Option (PVal F) → PVal F) (data : Option (JVal F)) (r : PVal F)
+    (h : commandDo argT resT func data = .ok r) :
+    ∃ a, ResultOK resT (func a) (.ok r) ∧
+      match argT with
+      | some adt => ∃ j v, dataArg data = some j ∧ acceptWire adt j none = .ok v ∧ a = some v
+      | none => dataArg data = none ∧ a = none := by
+  cases argT with
+  | none =>
+    cases hd : dataArg data with
+    | none =>
+      simp only [commandDo, hd] at h
+      exact ⟨none, command_result_ok resT hwf _ r h, rfl, rfl⟩
+    | some j => simp [commandDo, hd] at h
+  | some adt =>
+    cases hd : dataArg data with
+    | none => simp [commandDo, hd] at h
+    | some j =>
+      simp only [commandDo, hd] at h
+      split at h
+      · cases h
+      · rename_i v hv
+        exact ⟨some v, command_result_ok resT hwf _ r h, j, v, rfl, hv, rfl⟩
+
+/-- … or a bad-value error, never anything else -/
+theorem command_do_total (argT resT : Option (DType F)) (func : Option (PVal F) → PVal F) (data : Option (JVal F))
+    (c : String) : commandDo argT resT func data ≠ .error (.other c) := by
+  unfold commandDo
+  split
+  · simp
+  · rename_i adt j _
+    split
+    · rename_i e he
+      intro hc
+      injection hc with hc
+      exact accept_total adt j none c (by rw [he, hc])
+    · exact command_result_total resT _ c
+  · simp
+  · exact command_result_total resT _ c
+
+/-- the type monitor never accepts a value that is not of the type -/
+theorem ofTypeB_sound (dt : DType F) (v : PVal F) (h : ofTypeB dt v = true) : OfType dt v := by
+  have h' : OfTypeM dt v := of_decide_eq_true h
+  exact ofTypeG_mono (fun _ _ => onGrid_of_near) dt v h'
+
+theorem convDenotesB_iff (dt : DType F) (o r : PVal F) : convDenotesB dt o r = true ↔ ConvDenotes dt o r :=
+  decide_eq_true_iff
+
+/-- the monitor of the result clause is sound: an empty verdict means the clause holds for that outcome -/
+theorem judgeResult_sound (resT : Option (DType F)) (ret : PVal F) (out : Outcome F) (again : Option (Outcome F))
+    (h : judgeResult resT ret out again = []) : ResultOK resT ret out := by
+  cases out with
+  | bad => trivial
+  | other c => simp [judgeResult] at h
+  | ok r =>
+    simp only [judgeResult, List.append_eq_nil_iff] at h
+    obtain ⟨h1, _⟩ := h
+    cases resT with
+    | none =>
+      simp only [ResultOK]
+      by_cases hb : PVal.isNone r = true
+      · exact hb
+      · simp [hb] at h1
+    | some dt =>
+      simp only [ResultOK]
+      simp only [List.append_eq_nil_iff] at h1
+      obtain ⟨h1, h2⟩ := h1
+      refine ⟨?_, ?_⟩
+      · by_cases hb : ofTypeB dt r = true
+        · exact ofTypeB_sound dt r hb
+        · simp [hb] at h1
+      · by_cases hb : convDenotesB dt ret r = true
+        · exact (convDenotesB_iff dt ret r).1 hb
+        · simp [hb] at h2
+
+/-- the monitor of the conversion path is sound -/
+theorem judgeConv_sound (dt : DType F) (o : PVal F) (out : Outcome F) (recall : Option (Outcome F))
+    (h : judgeConv dt o out recall = []) : ConvOK dt o out := by
+  cases out with
+  | bad => trivial
+  | other c => simp [judgeConv] at h
+  | ok r =>
+    simp only [judgeConv, List.append_eq_nil_iff] at h
+    obtain ⟨⟨h1, h2⟩, _⟩ := h
+    refine ⟨?_, ?_⟩
+    · by_cases hb : ofTypeB dt r = true
+      · exact ofTypeB_sound dt r hb
+      · simp [hb] at h1
+    · by_cases hb : convDenotesB dt o r = true
+      · exact of_decide_eq_true hb
+      · simp [hb] at h2
+
+/-! ## the refusal path: the helper that builds the text of every bad-value error of the scalar types
+
+`shortrepr` runs on every refused candidate before the error exists; `repr` is an external call that may raise. -/
+
+/-- `shortrepr` answers a text for every candidate, whatever `repr` does with it -/
+theorem shortrepr_total {α : Type} (repr : α → Except String String) (typeName : α → String) (v : α) :
+    ∃ s, shortrepr repr typeName v = .ok s := by
+  unfold shortrepr
+  split <;> exact ⟨_, rfl⟩
+
+/-- … so what leaves a refusing method is the bad-value error it meant to raise - for every candidate, of every kind and
+size (a JSON object of a thousand members, an int of 5000 digits, a value nested 3000 levels deep) -/
+theorem raiseBad_is_bad {α : Type} (repr : α → Except String String) (typeName : α → String) (cls : Err) (v : α) :
+    raiseBad repr typeName cls v = cls := by
+  unfold raiseBad
+  obtain ⟨s, hs⟩ := shortrepr_total repr typeName v
+  rw [hs]
+
+/-- where `repr` answers, the text is `repr` itself up to 40 characters, else its first 40 characters and `...` -/
+theorem shortrepr_short {α : Type} (repr : α → Except String String) (typeName : α → String) (v : α) (r : String)
+    (h : repr v = .ok r) : shortrepr repr typeName v = .ok (cut40 r) ∧ (r.length ≤ 40 → cut40 r = r) ∧
+      (40 < r.length → cut40 r = String.ofList (r.toList.take 40) ++ "...") := by
+  unfold shortrepr
+  rw [h]
+  refine ⟨rfl, ?_, ?_⟩
+  · intro hl; unfold cut40; rw [if_neg (by omega)]
+  · intro hl; unfold cut40; rw [if_pos (by omega)]
+
 /-! ## non-vacuity: the exact carrier `Rat` is lawful, and a nested tree over it -/
 
 /-- a struct of an array of scaled values, a double with a relative tolerance and an enum; member `b` optional -/
@@ -518,6 +736,93 @@ example : (match acceptWire (F := Rat) (.string 3 4 true) (.str "äöüß") none
     | .ok _, .error .range => true
     | _, _ => false) = true := by
   decide +kernel
+
+/-! ### non-vacuity: command results, the error-text helper -/
+
+/-- a command with result type `exTree` whose function reports `b = 50` (outside the limits): `Command.do` hands it back
+(the conversion-only path does not apply numeric limits) - a value of the type (`command_do_ok`), not of the value set -/
+example : ∃ r, commandDo none (some exTree) (fun _ => exHeld) none = .ok r ∧ ResultOK (some exTree) exHeld (.ok r) ∧
+    inSetB exTree r = false := by
+  have hb : (match commandDo none (some exTree) (fun _ => exHeld) none with
+      | .ok r => !inSetB exTree r
+      | _ => false) = true := by decide +kernel
+  cases h : commandDo none (some exTree) (fun _ => exHeld) none with
+  | error e => rw [h] at hb; cases hb
+  | ok r =>
+    rw [h] at hb
+    obtain ⟨a, ha, _⟩ := command_do_ok none (some exTree) (fun dt hdt => by injection hdt with hdt; rw [← hdt]; exact exTree_wf) _ _ r h
+    exact ⟨r, rfl, ha, by simpa using hb⟩
+
+/-- a communicate-like command (string argument, string result) whose function has no answer: a bad-value error, for
+the argument-less form too; with an answer the answer is handed back; without a declared result type `None` is -/
+example : (match commandDo (F := Rat) (some (.string 0 10 true)) (some (.string 0 10 true)) (fun _ => .none) (some (.str "xyz")),
+      commandDo (F := Rat) none (some (.int 0 5)) (fun _ => .none) none,
+      commandDo (F := Rat) (some (.string 0 10 true)) (some (.string 0 10 true)) (fun _ => .str "device") (some (.str "*IDN?")),
+      commandDo (F := Rat) none none (fun _ => .int 7) (some .null),
+      commandDo (F := Rat) none none (fun _ => .int 7) (some (.int 1)) with
+    | .error .wrongType, .error .wrongType, .ok (.str "device"), .ok .none, .error .wrongType => true
+    | _, _, _, _, _ => false) = true := by
+  decide +kernel
+
+example : commandResult (some exTree) (.none : PVal Rat) = .error .wrongType := command_none_refused exTree
+
+example : ¬ OfType exTree (.none : PVal Rat) := none_of_no_type exTree
+
+example : OfType exTree exPrev := inSet_ofType exTree exTree_wf exPrev exPrev_inSet
+
+/-- the result monitor accepts the converted value and flags `None`, a value of another kind and a leaked exception -/
+example : ((judgeResult (some exTree) exHeld (.ok exHeld) (some (.ok exHeld))).isEmpty &&
+    (judgeResult (some exTree) .none (.ok .none) none).contains "oftype:result" &&
+    (judgeResult (F := Rat) (some (.string 0 10 true)) (.int 5) (.ok (.int 5)) (some .bad)).contains "oftype:result" &&
+    (judgeResult (F := Rat) (some (.string 0 10 true)) .none (.ok (.str "None")) (some (.ok (.str "None")))).contains "denotes:result" &&
+    (judgeResult (F := Rat) (some (.int 0 5)) (.float (7/2)) (.ok (.int 3)) (some (.ok (.int 3)))).contains "denotes:result" &&
+    (judgeResult (F := Rat) (some (.string 0 10 true)) .none (.other "TypeError") none).contains "total:result" &&
+    (judgeResult (F := Rat) none (.int 7) (.ok .none) none).isEmpty) = true := by
+  decide +kernel
+
+/-- the conversion path on the example: a driver update with `b = 50` is converted (`call_ok`), the monitor accepts the
+outcome and flags a truncated fraction and a value of another kind -/
+example : ∃ r, call exTree exHeld = .ok r ∧ ConvOK exTree exHeld (.ok r) := by
+  cases hc : call exTree exHeld with
+  | error e =>
+    have hb : (match call exTree exHeld with
+      | .ok _ => true
+      | _ => false) = true := by decide +kernel
+    rw [hc] at hb; cases hb
+  | ok r =>
+    have := call_ok exTree exTree_wf exHeld
+    rw [hc] at this
+    exact ⟨r, rfl, this⟩
+
+example : ((judgeConv exTree exHeld (.ok exHeld) (some (.ok exHeld))).isEmpty &&
+    (judgeConv (F := Rat) (.int 0 5) (.float (7/2)) (.ok (.int 3)) (some (.ok (.int 3)))).contains "denotes:call" &&
+    (judgeConv (F := Rat) (.int 0 5) (.str "3") (.ok (.int 3)) (some (.ok (.int 3)))).contains "denotes:call" &&
+    (judgeConv (F := Rat) (.int 0 5) (.int 3) (.ok (.str "3")) (some (.ok (.str "3")))).contains "oftype:call") = true := by
+  decide +kernel
+
+/-- `held_ofType` on the example: after a driver update outside the limits and two change requests the parameter holds
+a value of its type -/
+example : OfType exTree
+    (holdRun exTree exPrev [.update exHeld, .change (.obj [("a", .arr []), ("b", .int 1), ("c", .int 0)]), .change exWire,
+      .update .none]) :=
+  held_ofType exTree exTree_wf exPrev (inSet_ofType exTree exTree_wf exPrev exPrev_inSet) _
+
+/-- the helper on a `repr` that fails for big values (as `repr(int)` beyond 4300 digits): a text in every case, a cut
+one for long texts; and the error that leaves the method is the one meant -/
+def exRepr (n : Nat) : Except String String :=
+  if n > 4300 then .error "ValueError" else .ok (String.ofList (List.replicate n 'x'))
+
+example : (match shortrepr exRepr (fun _ => "int") 5000, shortrepr exRepr (fun _ => "int") 41, shortrepr exRepr (fun _ => "int") 3 with
+    | .ok a, .ok b, .ok c => a == "<int object>" && b.length == 43 && c == "xxx"
+    | _, _, _ => false) = true := by
+  decide +kernel
+
+example : raiseBad exRepr (fun _ => "int") .wrongType 5000 = .wrongType := raiseBad_is_bad _ _ _ _
+
+example : ∃ s, shortrepr exRepr (fun _ => "int") 5000 = .ok s := shortrepr_total _ _ _
+
+example : shortrepr exRepr (fun _ => "int") 3 = .ok (cut40 "xxx") :=
+  (shortrepr_short exRepr (fun _ => "int") 3 "xxx" (by simp [exRepr])).1
 
 /-! ## constants of the source -/
 
